@@ -407,6 +407,12 @@ FUNCS = [
          free={'self': (None, CONFIG), 'introspectables': (V('l'), ITEMS)},
          sig='(introspection : bool) (l : list (intr * list relop))'),
 ]
+# every source function whose control flow is regenerated on every run (for the two fragment functions the rest of the
+# body is covered by the masked pins of pins_masked.json); read by tools/coverage_map.py
+TRANSLATED = ['%s:%s' % ({'Introspector': 'pyramid/registry.py', 'Introspectable': 'pyramid/registry.py',
+                          'ActionState': 'pyramid/config/actions.py',
+                          'ActionConfiguratorMixin': 'pyramid/config/actions.py'}[f['qual'].split('.')[0]], f['qual'])
+              for f in FUNCS]
 FILE_OF = {'Introspector': 'pyramid/registry.py', 'Introspectable': 'pyramid/registry.py',
            'ActionState': 'pyramid/config/actions.py', 'ActionConfiguratorMixin': 'pyramid/config/actions.py'}
 DEFAULT_BODY = {'state': '(s, Err KeyError)', 'pure': '[]'}
@@ -1371,7 +1377,7 @@ def translate_tree(src_root, want_masked=None):
                     if spec.get('fragment'):
                         holder, idx = find_fragment(fn, spec['fragment'])
                         stmts = [holder[idx]]
-                        masked[spec['qual']] = masked_shape(fn, holder, idx)
+                        masked.setdefault(FILE_OF[spec['qual'].split('.')[0]], {})[spec['qual']] = masked_shape(fn, holder, idx)
                     term = FnTranslator(fn, spec, stmts).translate()
                     body = render(term, 2)
                 except Problem as e:
